@@ -92,6 +92,15 @@ pub enum AgendaTrace {
 
 pub struct AgendaWorld;
 
+/// activation-group names: the second group has a BLANK name — a legal name like any other
+fn agname(g: u8) -> String {
+    if g % 2 == 0 {
+        " ".to_string()
+    } else {
+        format!("a{g}")
+    }
+}
+
 fn group_name(g: u8) -> String {
     match g {
         0 => "MAIN".to_string(),
@@ -154,7 +163,8 @@ fn run_a(ops: &[AOp], obs: &mut Obs) -> Result<(), Violation> {
                     // tells identical-looking activations apart when they come back
                     .with_condition_count(seq as usize + 1);
                 if a.activation_group > 0 {
-                    act = act.with_activation_group(format!("a{}", a.activation_group));
+                    // (the second activation group has a BLANK name — a legal name like any other)
+                    act = act.with_activation_group(agname(a.activation_group));
                 }
                 let my_seq = seq;
                 seq += 1;
@@ -230,7 +240,7 @@ fn run_a(ops: &[AOp], obs: &mut Obs) -> Result<(), Violation> {
                 };
                 let eligible = |p: &Pending, fired_rules: &BTreeSet<String>, fired_groups: &BTreeSet<String>| -> bool {
                     !(p.act.no_loop && fired_rules.contains(&format!("R{}", p.act.rule)))
-                        && !(p.act.activation_group > 0 && fired_groups.contains(&format!("a{}", p.act.activation_group)))
+                        && !(p.act.activation_group > 0 && fired_groups.contains(&agname(p.act.activation_group)))
                 };
                 // certainly eligible: also not touched by lock-on-active (which the property does not mention)
                 let certainly = |p: &Pending, fr: &BTreeSet<String>, fg: &BTreeSet<String>, locked: &BTreeSet<String>| -> bool {
@@ -395,7 +405,7 @@ fn run_a(ops: &[AOp], obs: &mut Obs) -> Result<(), Violation> {
                 focus = g.clone();
                 obs.count("probe.auto_focus_switched_group");
             }
-            let maybe_absent = a.activation_group > 0 && fired_groups.contains(&format!("a{}", a.activation_group));
+            let maybe_absent = a.activation_group > 0 && fired_groups.contains(&agname(a.activation_group));
             let list = pending.entry(g).or_default();
             if list.iter().any(|p| p.act.salience == a.salience && p.created_ns == created_ns) {
                 stalled_ties += 1;
